@@ -144,6 +144,9 @@ def run(ctx, rep):
     signature_invariance(F, rep, "C03.signature-invariance")
     every_argument_is_checked(F, rep, "C03.arity")
     optional_not_accepted_for_plain(F, rep, "C03.optional-direction")
+    # leaves that are not checked where they are built (a bare `self` outside of a class) are rejected by the check of the finished tree
+    from props import C16 as _c16
+    _c16.expressions_are_typed_before_they_are_stored(F, rep, rule="C03.typed-tree")
 
 
 def every_argument_is_checked(F, rep, rule):
